@@ -120,6 +120,11 @@ def run_linen(ctx, depth):
         a, b = build(da), build(db)
         r = fn(a, b)
         ctx.op(opname + '_filters')
+        # filters are values: an operation reads its operands, a caller that keeps using the same filter object (a `mutable` set
+        # passed to every apply) must find it denoting what it denoted before
+        ma, mb = real_members(scope, a), real_members(scope, b)
+        ctx.check(ma == tuple(ref_in(da, n) for n in NAMES) and mb == tuple(ref_in(db, n) for n in NAMES), 'linen.op:operand_changed',
+                  lambda: dict(op=opname, a_built_as=repr(build(da)), a_now=repr(a), b_built_as=repr(build(db)), b_now=repr(b)))
         want = tuple(sem(ref_in(da, n), ref_in(db, n)) for n in NAMES)
         got = real_members(scope, r)
         ctx.check(got == want, 'linen.op:' + opname,
